@@ -19,7 +19,9 @@ RULE = (
     "(cell: inside the box; corner flow: at least 1e-6*scale from the singular origin; "
     "simple shear: anywhere within 1e6). Pathline cases: same flows, a box, a final "
     "location inside the box (>=1% of the box away from every boundary), strain limit in "
-    "[0.1,5], optional regular resampling. Strain-increment cases: dt in +-10^[-6,16] and any "
+    "[0.1,5], optional regular resampling (pointwise cases also re-evaluate the first point "
+    "after a call elsewhere: pure functions, results handed out earlier are not "
+    "overwritten). Strain-increment cases: dt in +-10^[-6,16] and any "
     "3x3 velocity gradient of scale 10^[-16,3]. Non-trivial: point >=1% of the box away "
     "from every boundary and coordinate axis (pointwise); pathline with >=5 timestamps; "
     "non-symmetric L (strain increment); distinct = distinct canonical JSON."
